@@ -242,3 +242,46 @@ PLANS["C26"] = {
                                            [["c0"], ["itp"], ["la"], ["seed"]], need="farkas", n_atoms=6),
     "rule": "every conflict of the LA solver with its coefficients; non-trivial = at least one Farkas certificate was checked",
 }
+
+def driver_build(flavours=("rel",)):
+    import subprocess
+    for fl in flavours:
+        r = subprocess.run([os.path.join(VERIF, "bin", "build_drivers.sh"), fl], stdout=subprocess.PIPE, stderr=subprocess.STDOUT)
+        if r.returncode != 0:
+            print(r.stdout.decode()[-2000:])
+            return False
+    return True
+PLANS["C14"] = {
+    "module": "Terms_Trace", "pre": lambda: driver_build(),
+    "jobs": lambda seed, tier: spread(seed, "C14", N(tier, 60, 1200), ["ALL"], "terms", size=N(tier, 70, 90)),
+    "mc": [{"module": "MC_TermStore"}],
+    "per_batch": 4,
+    "rule": "sequences of constructor calls of depth <= 3 over Bool/Int/Real/U/Array variables and constants (zero, one, minus one, "
+            "repeated and complementary arguments); every returned term is compared with op(args) on a grid of interpretations "
+            "enumerated by TLC; non-trivial = more than 10 constructions were comparable; distinct by call sequence",
+}
+PLANS["C28"] = {
+    "module": "Terms_Trace", "pre": lambda: driver_build(),
+    "jobs": lambda seed, tier: spread(seed, "C28", N(tier, 60, 1200), ["ALL"], "terms", size=N(tier, 80, 100), big=True),
+    "mc": [{"module": "MC_TermStore"}],
+    "per_batch": 4,
+    "rule": "sequences of constructor calls with repeated and argument-permuted calls; identities (PTRef) must be a function of the "
+            "call, injective w.r.t. printed structure, and larger than the identities of the arguments",
+}
+
+TS_LOGICS = ["QF_LRA", "QF_UF", "QF_RDL", "QF_IDL", "QF_LIA"]
+def tsolver_jobs(seed, tier):
+    jobs = spread(seed, "C22t", N(tier, 28, 700), TS_LOGICS, "tsolver", mode="tlc", nseq=N(tier, 40, 60), n_atoms=3)
+    jobs += spread(seed, "C22r", N(tier, 42, 1000), TS_LOGICS, "tsolver", mode="random", nseq=N(tier, 5, 8), n_atoms=7)
+    return jobs
+PLANS["C22"] = {
+    "module": "TSolver_Trace", "pre": lambda: driver_build(),
+    "jobs": tsolver_jobs,
+    "mc": [{"module": "MC_TSolver"}],
+    "per_batch": 6,
+    "remap": lambda v: "C22" if v.get("p") in ("C22",) else v.get("p"),
+    "rule": "operation sequences (declare / assert / retract / check) on the LA, EUF and difference-logic solvers through TSolverHandler: "
+            "(a) behaviours of MC_TSolver (all complete sequences of 4 operations over 3 atoms, sampled per family) with concrete atoms, "
+            "(b) random sequences of 20-50 operations over 7 atoms; verdicts judged by the kernel (model evaluation / FM+CC refutation) "
+            "and by a memo keyed by the literal set; non-trivial = the sequence contains a check",
+}
